@@ -160,9 +160,17 @@ func deadLetterDelivery(
 		if err != nil {
 			return err
 		}
+		// several deliveries can be dead-lettered by one transaction with one shared
+		// `now`; give each forwarded copy its own enqueue time (like separately
+		// published messages have), otherwise an ordered dead-letter subscription
+		// cannot tell which of them is the most recent predecessor
+		forwardedAt := time.Now()
+		if forwardedAt.Before(now) {
+			forwardedAt = now
+		}
 		var dlc []*ent.DeliveryCreate
 		for _, s := range dlTopic.Edges.Subscriptions {
-			if dc, err := deliverToSubscription(ctx, tx, s, m, now, loggerName); err != nil {
+			if dc, err := deliverToSubscription(ctx, tx, s, m, forwardedAt, loggerName); err != nil {
 				return err
 			} else if dc != nil {
 				dlc = append(dlc, dc)
